@@ -1032,8 +1032,8 @@ def gen_batch(rng, n_models, per_model):
 def correspondence(ctx) -> CorrResult:
     rng = ctx.rng
     res = CorrResult()
-    n_models = ctx.scale(70, 2000)
-    per_model = ctx.scale(3, 4)
+    n_models = ctx.scale(45, 1500)
+    per_model = ctx.scale(5, 6)
     items = []
     dist = {"method": {}, "terminal": {}, "initial_guess": {}, "kind": {}, "frames": {}, "plan": 0, "log_variables": 0,
             "status": {}, "simulate_raised": 0, "first_order_compared": 0, "residual_checks": 0,
@@ -1081,11 +1081,11 @@ def correspondence(ctx) -> CorrResult:
                     "status": [str(s) for s in r["info"]["exit_status"]]} for c, r in items[:3]]
     import time as _t
     t_sim = _t.time() - ctx.t0
-    per_shard = max(6, min(25, -(-len(items) // core.NCPU)))
+    per_shard = max(4, min(25, -(-len(items) // (2 * core.NCPU))))
     shards = [items[i:i + per_shard] for i in range(0, len(items), per_shard)]
     texts = [shard_text(sh) for sh in shards]
     t_a = _t.time()
-    results = core.run_cases(ctx, texts)
+    results = core.run_cases(ctx, texts, timeout=1500)
     ctx.log(f"correspondence: {len(items)} simulations recorded by {t_sim:.0f}s after start; "
             f"{len(texts)} Coq shards ({sum(len(t) for t in texts) // 1000} kB) evaluated in {_t.time() - t_a:.0f}s")
     res.shards = len(texts)
@@ -1162,10 +1162,10 @@ def falsify(ctx, hints):
                 info["from_hints"] += 1
             except Exception:  # noqa
                 pass
-    n_models = ctx.scale(25, 400)
+    n_models = ctx.scale(15, 300)
     if hints.get("broken"):
         n_models *= 2
-    for case, m in gen_batch(rng, n_models, 3):
+    for case, m in gen_batch(rng, n_models, 5):
         one(case, m)
         if len(fails) > 30:
             break
